@@ -207,6 +207,18 @@ func c10Table() []watchCase {
 		[]string{"EXPIRE", "k", "100"}, []string{"PERSIST", "k"}, []string{"GETDEL", "k"}, []string{"GETSET", "k", "v"}, []string{"LMOVE", "nokey", "k", "LEFT", "LEFT"}, []string{"SMOVE", "nokey", "k", "m"},
 		[]string{"FLUSHDB"}, []string{"BITFIELD", "k", "SET", "u8", "0", "0"}, []string{"BITFIELD", "k", "INCRBY", "u8", "0", "0"},
 		[]string{"SORT", "nokey", "STORE", "k"}, []string{"SORT", "k", "STORE", "k"}, []string{"SORT", "o", "STORE", "k"})
+	// a one-element list rotated onto itself is popped and pushed: a modification like any other rotation
+	one := [][]string{{"RPUSH", "k", "a"}}
+	add(one, []string{"LMOVE", "k", "k", "LEFT", "RIGHT"}, []string{"LMOVE", "k", "k", "RIGHT", "RIGHT"}, []string{"RPOPLPUSH", "k", "k"}, []string{"LMOVE", "nokey", "k", "LEFT", "LEFT"},
+		[]string{"LSET", "k", "0", "a"}, []string{"LTRIM", "k", "0", "-1"}, []string{"LREM", "k", "0", "zz"}, []string{"LINSERT", "k", "BEFORE", "zz", "x"}, []string{"SORT", "k", "ALPHA", "STORE", "k"})
+	// the watched key is gone but still stored when WATCH is issued (UNLINK moves the deadline into the past)
+	goneS := [][]string{{"SET", "k", "hello"}, {"UNLINK", "k"}}
+	goneL := [][]string{{"RPUSH", "k", "a", "b"}, {"SET", "o", "other"}, {"UNLINK", "k"}}
+	for _, gone := range [][][]string{goneS, goneL} {
+		add(gone, []string{"DEL", "k"}, []string{"UNLINK", "k"}, []string{"EXISTS", "k"}, []string{"GET", "o"}, []string{"TYPE", "k"}, []string{"TTL", "k"}, []string{"PERSIST", "k"}, []string{"EXPIRE", "k", "100"},
+			[]string{"PING"}, []string{"SET", "k", "new"}, []string{"APPEND", "k", "x"}, []string{"RPUSH", "k", "a"}, []string{"SETRANGE", "k", "0", ""}, []string{"SETRANGE", "k", "0", "x"}, []string{"LPUSHX", "k", "x"},
+			[]string{"RENAME", "o", "k"}, []string{"GETDEL", "k"}, []string{"INCRBY", "k", "0"}, []string{"HDEL", "k", "f"}, []string{"SREM", "k", "m"}, []string{"LPOP", "k"})
+	}
 	return t
 }
 
@@ -360,6 +372,9 @@ func init() {
 			n = 6000
 		}
 		table := c10Table()
+		if n < len(table)*5/3+10 {
+			n = len(table)*5/3 + 10 // every entry of the table in every run
+		}
 		start := g.r.Intn(len(table))
 		res.Extra["single_write_table"] = len(table)
 		return runHistories(cfg, res, n, func(i int) History {
@@ -671,8 +686,8 @@ func init() {
 				if g.chance(0.25) {
 					// the iteration commands and the filters of SCAN see the same keyspace as everybody else
 					k := g.key()
-					o = [](Op){mkOp(1, "SCAN", "0", "COUNT", "1000", "TYPE", g.pick("string", "list", "hash", "set")), mkOp(1, "SCAN", "0", "MATCH", "k*", "COUNT", "1000"),
-						mkOp(1, "SCAN", "0", "COUNT", "1000", "MATCH", "*", "TYPE", g.pick("string", "list", "hash", "set")), mkOp(1, "HSCAN", k, "0", "COUNT", "1000"), mkOp(1, "SSCAN", k, "0", "COUNT", "1000"),
+					o = [](Op){mkOp(1, "SCAN", "0", "COUNT", "1000", g.kw("TYPE"), g.kw(g.pick("string", "list", "hash", "set"))), mkOp(1, "SCAN", "0", "MATCH", "k*", "COUNT", "1000"),
+						mkOp(1, "SCAN", "0", "COUNT", "1000", "MATCH", "*", "TYPE", g.kw(g.pick("string", "list", "hash", "set", "zset", "none"))), mkOp(1, "HSCAN", k, "0", "COUNT", "1000"), mkOp(1, "SSCAN", k, "0", "COUNT", "1000"),
 						mkOp(1, "HSCAN", k, "0", "MATCH", "*"), mkOp(1, "SSCAN", k, "0"), mkOp(1, "HRANDFIELD", k, "5"), mkOp(1, "SRANDMEMBER", k, "5"), mkOp(1, "HGETALL", k), mkOp(1, "SMEMBERS", k),
 						mkOp(1, "SCAN", "0", "MATCH", g.pick("k[a-c]", "k[a-d]", "k[b-d]*", "[j-k]?", "k[^a-b]"), "COUNT", "1000"), mkOp(1, "HSCAN", k, "0", "MATCH", g.pick("f[1-3]", "f[1-4]", "f[2-4]", "[e-f]*"), "COUNT", "1000"),
 						mkOp(1, "SSCAN", k, "0", "MATCH", g.pick("[a-c]", "[a-d]", "[b-d]", "[^a-c]"), "COUNT", "1000"), mkOp(1, "KEYS", g.pick("k[a-c]", "k[a-d]", "k[b-d]")),
